@@ -79,7 +79,8 @@ for kind, rel in sorted(plan):
             tb.write(base_content(rel))
         work = dst + ".merge"
         shutil.copy2(dst, work)
-        r = sh(f"git merge-file -L current -L base -L {ID} {work} {tb.name} {src}")
+        union = "--union " if rel.endswith("translate.py") else ""
+        r = sh(f"git merge-file {union}-L current -L base -L {ID} {work} {tb.name} {src}")
         os.unlink(tb.name)
         if r.returncode == 0:
             os.replace(work, dst)
